@@ -195,14 +195,71 @@ def one_case(rep, cs, seed, i):
     cs.add(desc, term, interp, nontrivial=True)
 
 
+def optimized_case(rep, cs, seed, i):
+    """parameter graphs matched by the parameter optimisation rules (log o softmax, reduce-sum o outer-product with every
+    combination of axes), compiled inside constant layers under optimize / fold"""
+    from cirkit.symbolic import layers as L
+    from cirkit.symbolic.circuit import Circuit
+    rng = rng_for(seed, PID + "opt", i)
+    n = rng.choice([1, 2, 2, 3])
+    layers = []
+    for _ in range(n):
+        kind = rng.choice(["rs_outer", "rs_outer", "logsoftmax"])
+        if kind == "logsoftmax":
+            K = rng.choice([2, 3])
+            t = leaf(rng, (K,))
+            par = P.Parameter.from_unary(P.LogParameter((K,)), P.Parameter.from_unary(P.SoftmaxParameter((K,), axis=rng.choice([0, -1])), t))
+        else:
+            rank = rng.choice([2, 2, 3])
+            s1 = tuple(rng.choice([1, 2, 3]) for _ in range(rank))
+            oa = rng.randrange(rank)
+            s2 = tuple(rng.choice([1, 2, 3]) if k == oa else d for k, d in enumerate(s1))
+            op = P.OuterProductParameter(s1, s2, axis=axis_arg(rng, oa, rank))
+            par = P.Parameter.from_binary(op, P.Parameter.from_input(leaf(rng, s1)), P.Parameter.from_input(leaf(rng, s2)))
+            shape = par.shape
+            # reduce until a vector is left
+            while len(shape) > 1:
+                ra = rng.randrange(len(shape))
+                par = P.Parameter.from_unary(P.ReduceSumParameter(shape, axis=axis_arg(rng, ra, len(shape))), par)
+                shape = par.shape
+        layers.append(L.ConstantValueLayer(par.shape[0], value=par))
+    fold, opt = rng.choice([(False, True), (True, True), (True, False)])
+    desc = {"i": i, "seed": seed, "family": "optimized", "fold": fold, "opt": opt,
+            "nodes": [[type(nd).__name__ + str(getattr(nd, "axis", "")) for nd in l.value.topological_ordering()] for l in layers]}
+    rep.count("family:optimized")
+    rep.count(f"flags:{int(fold)}{int(opt)}")
+    try:
+        sc = Circuit(layers, {}, layers) if len({l.num_output_units for l in layers}) == 1 else Circuit(layers[:1], {}, layers[:1])
+        ctx = evalc.make_ctx("sum-product", fold, opt)
+        cc = ctx.compile(sc)
+        out = cc().detach().numpy()      # (outputs, units)
+    except Exception as e:
+        rep.violation("parameter-optimize-exception:" + type(e).__name__, "compiling / evaluating a parameter graph under optimize/fold raised",
+                      {"case": desc, "exception": repr(e)[:300], "traceback": traceback.format_exc()[-1500:]})
+        return
+    ex = export.Exporter()
+    terms = [f"pcmp {ex.param(l.value)} {export.ex_tensor(out[k])}" for k, l in enumerate(sc.outputs)]
+    term = "[" + "; ".join(terms) + "]"
+
+    def interp(res, desc=desc, out=out):
+        rep.count(f"coq:pcmp-opt={min(res)}")
+        if min(res) == 0:
+            rep.violation("parameter-optimized-wrong-value", "a parameter graph rewritten by the parameter optimisation rules does not compute its definition",
+                          {"case": desc, "observed": out.tolist()})
+
+    cs.add(desc, term, interp, nontrivial=True)
+
+
 def run(rep, tier, seed, replay=None):
     n = 600 if tier == "quick" else 8000
     cs = CaseSet(rep, PID)
     if replay is not None:
         c = replay["replay"].get("case", {})
-        one_case(rep, cs, c.get("seed", seed), c.get("i", 0))
+        (optimized_case if c.get("family") == "optimized" else one_case)(rep, cs, c.get("seed", seed), c.get("i", 0))
         cs.run()
         return
     for i in range(n):
         one_case(rep, cs, seed, i)
+    for i in range(n // 4):
+        optimized_case(rep, cs, seed, i)
     cs.run(shard=max(10, n // 14))
